@@ -556,6 +556,11 @@ func (s *session) handleLogon(msg *Message) error {
 	}
 
 	if resetStore {
+		// Messages queued under the old numbering must not survive the reset.
+		s.sendMutex.Lock()
+		s.dropQueued()
+		s.sendMutex.Unlock()
+
 		if err := s.store.Reset(); err != nil {
 			return err
 		}
